@@ -37,8 +37,10 @@ Headers are generated to create TIES in every ordering the generators compute: o
 pointers to unrelated classes (equal sort class in RemapCompareLess), const/non-const and
 static twins, overloaded constructors and coercion constructors, overloaded property setters,
 operators, many manifests, many included files, templates instantiated through typedefs, deep
-and diamond inheritance, thousands of functions (wrapper-name hash collisions), and a module
-made of several libraries.
+and diamond inheritance, thousands of functions (wrapper-name hash collisions), a module
+made of several libraries, FOREIGN classes / enums / typedefs / bases (defined in headers found
+through -I and -S, hence imported, with homonyms across namespaces and enclosing classes), and
+exported homonyms (same simple name, same length, common prefix) for every name-keyed table.
 """
 import itertools
 import os
@@ -232,11 +234,227 @@ def h_lib2():
     return s
 
 
+def h_foreign():
+    """Exported signatures, bases, typedefs and properties refer to classes, enums and typedefs that
+    are defined in FOREIGN headers (found through -I and -S, so not exported by this run and to be
+    imported at module initialisation).  Many of them tie under a weaker key than the full scoped
+    name: same simple name in different namespaces / enclosing classes, same length, same prefix."""
+    ext = """#ifndef SHAPES_H
+#define SHAPES_H
+namespace render {
+  class Params {
+  __published:
+    Params();
+    int get_mode() const;
+  };
+  class Node {
+  __published:
+    Node();
+    virtual int kind() const;
+  };
+  enum Mode { M_off, M_on };
+  typedef int handle_t;
+  typedef Params Config;
+}
+namespace audio {
+  class Params {
+  __published:
+    Params();
+    int get_rate() const;
+  };
+  class Node {
+  __published:
+    Node();
+    virtual int kind() const;
+  };
+  enum Mode { M_mute, M_loud };
+  typedef float handle_t;
+  typedef Params Config;
+}
+namespace video {
+  class Params {
+  __published:
+    Params();
+  };
+  class Node {
+  __published:
+    Node();
+  };
+}
+class Mesh {
+__published:
+  Mesh();
+  class Iterator {
+  __published:
+    Iterator();
+    int index() const;
+  };
+  enum Kind { K_tri, K_quad };
+};
+class Curve {
+__published:
+  Curve();
+  class Iterator {
+  __published:
+    Iterator();
+    int index() const;
+  };
+  enum Kind { K_line, K_arc };
+};
+class Patch {
+__published:
+  Patch();
+  class Iterator {
+  __published:
+    Iterator();
+  };
+};
+class Aaa1 {
+__published:
+  Aaa1();
+};
+class Aaa2 {
+__published:
+  Aaa2();
+};
+class Aab1 {
+__published:
+  Aab1();
+};
+#endif
+"""
+    sysh = """#ifndef SYSBASE_H
+#define SYSBASE_H
+namespace core {
+  class Object {
+  __published:
+    Object();
+    virtual int get_id() const;
+  };
+  class Params {
+  __published:
+    Params();
+  };
+}
+namespace util {
+  class Object {
+  __published:
+    Object();
+    virtual int get_id() const;
+  };
+}
+template<class T> class Handle {
+__published:
+  Handle();
+  T *get() const;
+};
+typedef Handle<core::Object> CoreHandle;
+typedef Handle<util::Object> UtilHandle;
+#endif
+"""
+    common_a = "#ifndef COMMON_A\n#define COMMON_A\nnamespace a { class Common {\n__published:\n  Common();\n}; }\n#endif\n"
+    common_b = "#ifndef COMMON_B\n#define COMMON_B\nnamespace b { class Common {\n__published:\n  Common();\n}; }\n#endif\n"
+    scene = """#include "shapes.h"
+#include <sysbase.h>
+#include "a/common.h"
+#include "b/common.h"
+
+class Scene : public render::Node, public core::Object {
+__published:
+  Scene();
+  void apply(const render::Params &params);
+  void apply(const audio::Params &params);
+  void apply(const video::Params &params);
+  void apply(const core::Params &params);
+  void seek(const Curve::Iterator &it);
+  void seek(const Mesh::Iterator &it);
+  void seek(const Patch::Iterator &it);
+  Mesh *get_mesh() const;
+  Curve *get_curve() const;
+  Patch *get_patch() const;
+  render::Params *get_rparams() const;
+  audio::Params *get_aparams() const;
+  void set_mode(render::Mode m);
+  void set_mode(audio::Mode m);
+  void set_kind(Mesh::Kind k);
+  void set_kind(Curve::Kind k);
+  render::handle_t get_rh() const;
+  audio::handle_t get_ah() const;
+  void use(a::Common *c);
+  void use(b::Common *c);
+  void use(Aaa1 *p);
+  void use(Aaa2 *p);
+  void use(Aab1 *p);
+  CoreHandle *get_core_handle() const;
+  UtilHandle *get_util_handle() const;
+  render::Config *get_rconfig() const;
+  audio::Config *get_aconfig() const;
+  __make_property(mesh, get_mesh);
+  __make_property(curve, get_curve);
+};
+class Track : public audio::Node, public util::Object {
+__published:
+  Track();
+  audio::Node *as_node();
+  util::Object *as_object();
+};
+class Clip : public video::Node {
+__published:
+  Clip();
+};
+typedef render::Params RenderParams;
+typedef audio::Params AudioParams;
+typedef Mesh::Iterator MeshIt;
+typedef Curve::Iterator CurveIt;
+__begin_publish
+render::Node *find_rnode(int i);
+audio::Node *find_anode(int i);
+video::Node *find_vnode(int i);
+core::Object *find_cobj(int i);
+util::Object *find_uobj(int i);
+__end_publish
+"""
+    return {"h.h": scene, "ext/shapes.h": ext, "ext/a/common.h": common_a, "ext/b/common.h": common_b,
+            "sys/sysbase.h": sysh}
+
+
+def h_homonyms():
+    """EXPORTED entities whose names tie under weaker keys: same simple name in different
+    namespaces and enclosing classes, same method / enum value / typedef / manifest-like names,
+    same length, common prefix."""
+    s = ""
+    for ns in ("alpha", "beta", "gamma"):
+        s += "namespace %s {\n" % ns
+        s += "  class Thing {\n  __published:\n    Thing();\n    int get_value() const;\n    void set_value(int v);\n"
+        s += "    __make_property(value, get_value, set_value);\n"
+        s += "    enum State { S_idle, S_busy };\n    class Item {\n    __published:\n      Item();\n      int id;\n    };\n"
+        s += "    typedef int size_type;\n  };\n"
+        s += "  enum Level { L_low, L_high };\n  typedef Thing Alias;\n"
+        s += "  __begin_publish\n  int compute(int a);\n  Thing *make_thing();\n  __end_publish\n"
+        s += "}\n"
+    for outer in ("Box", "Bag", "Bin"):
+        s += "class %s {\n__published:\n  %s();\n  class Item {\n  __published:\n    Item();\n    int id;\n  };\n" % (outer, outer)
+        s += "  class Iterator {\n  __published:\n    Iterator();\n    int index() const;\n  };\n  enum Kind { K_a, K_b };\n};\n"
+    s += "class User {\n__published:\n  User();\n"
+    for ns in ("alpha", "beta", "gamma"):
+        s += "  void take(%s::Thing *t);\n  void item(%s::Thing::Item *i);\n  void level(%s::Level l);\n  void state(%s::Thing::State s);\n" % (ns, ns, ns, ns)
+    for outer in ("Box", "Bag", "Bin"):
+        s += "  void item(%s::Item *i);\n  void iter(%s::Iterator *i);\n  void kind(%s::Kind k);\n" % (outer, outer, outer)
+    s += "};\n"
+    for i, n in enumerate(("Aaaa", "Aaab", "Aaba", "Abaa", "Baaa")):
+        s += "class %s {\n__published:\n  %s();\n  int same_len_%d;\n};\n" % (n, n, i % 2)
+    for i in range(12):
+        s += "#define TIE_%s %d\n" % ("ab"[i % 2] * 3 + str(i // 2), i)
+    return {"h.h": s}
+
+
+
 HEADERS = [
     ("ovl_ptr", h_ovl_ptr), ("ovl_mixed", h_ovl_mixed), ("coerce", h_coerce),
     ("manifests", h_manifests), ("includes", h_includes), ("templates", h_templates),
     ("properties", h_properties), ("manyfn", lambda: h_many_functions(1500)),
     ("inherit", h_inherit), ("operators", h_operators), ("mix", h_mix),
+    ("foreign", h_foreign), ("homonyms", h_homonyms),
     ("tiny", lambda: {"h.h": "class T {\n__published:\n  T();\n  int x;\n};\n"}),
 ]
 
@@ -537,6 +755,8 @@ def build_scenarios(ck, b, seams, thorough):
             files = h_many_functions(6000)
         for be in ("c", "python", "pynative"):
             extra = ["-I", "."] if hname == "includes" else []
+            if hname == "foreign":
+                extra = ["-I", "ext", "-S", "sys"]
             scens.append(Scenario(ck, b, seams, "i-%s-%s" % (hname, be), "interrogate", be, files, ["h.h"], extra))
     # option variants that add ordered tables to the output
     mix = h_mix()
@@ -622,6 +842,18 @@ def main():
     for s in scens:
         prepare(s, scens)
     completed = "reference runs"
+    # vacuity guard for the import orderings: the foreign scenario must really produce an imports
+    # table in which several entries share their simple name
+    fs = byname.get("i-foreign-pynative")
+    if fs is not None:
+        names = re.findall(rb'^  \{"([^"]+)", nullptr\},$', fs.ref["outs"]["oc"], re.M)
+        simple = [n.split(b"::")[-1] for n in names]
+        homonyms = sorted({x.decode() for x in simple if simple.count(x) > 1})
+        ck.extra["foreign_imports"] = len(names)
+        ck.extra["foreign_import_homonyms"] = homonyms
+        if len(names) < 10 or len(homonyms) < 3:
+            raise HarnessError("foreign scenario does not exercise the imports table: %d imports, homonyms %s"
+                               % (len(names), homonyms))
     sized_seen = 0
     for lname, devs in levels:
         if ck.expired(reserve=20):
